@@ -30,11 +30,11 @@ func main() { vlib.Run("C30", run) }
 
 func run(c *vlib.Ctx) {
 	c.Rule("case = one file (size 0..2MiB biased to 0/1/2/chunk multiples; balanced|trickle, chunk 1..256KiB, fan-out 2..174, raw|pb leaves, CIDv0|1, optional mtime; optionally reached through a directory path or with ?filename=) + 8..16 requests (5..8 for files > 300 kB), each sent as GET and HEAD through handler.ServeHTTP; Range strings come from a grammar (single, suffix, open-ended, multi, overlapping, unsatisfiable, sum>size, offsets 0/1/size-1/size/size+1/2^62, OWS, empty list members, malformed) x If-Range (current ETag, weak, other, date) x If-None-Match x If-Modified-Since. Strata clean-* reject every request that has a trigger feature of a listed finding (first range != final range while the reader is pre-seeked; first range a suffix longer than the file); stratum hostile is unconstrained; stratum wire sends clean requests over a real loopback httptest.Server. distinct = FNV of file spec + request list + observed responses; non-trivial = file DAG has >= 2 levels and the case byte-verified at least one 206 with non-zero start, one full 200 and one 416 or 304")
-	c.Cases("clean-single", c.N(48, 1400), func(k *vlib.Case) { oneCase(k, modeSingle) })
-	c.Cases("clean-multi", c.N(40, 1100), func(k *vlib.Case) { oneCase(k, modeMulti) })
-	c.Cases("clean-cond", c.N(32, 900), func(k *vlib.Case) { oneCase(k, modeCond) })
-	c.Cases("hostile", c.N(40, 1200), func(k *vlib.Case) { oneCase(k, modeHostile) })
-	c.Cases("wire", c.N(8, 200), func(k *vlib.Case) { oneCase(k, modeWire) })
+	c.Cases("clean-single", c.N(48, 900), func(k *vlib.Case) { oneCase(k, modeSingle) })
+	c.Cases("clean-multi", c.N(40, 700), func(k *vlib.Case) { oneCase(k, modeMulti) })
+	c.Cases("clean-cond", c.N(32, 600), func(k *vlib.Case) { oneCase(k, modeCond) })
+	c.Cases("hostile", c.N(40, 700), func(k *vlib.Case) { oneCase(k, modeHostile) })
+	c.Cases("wire", c.N(8, 100), func(k *vlib.Case) { oneCase(k, modeWire) })
 }
 
 const (
@@ -85,7 +85,7 @@ var (
 // (OWS around commas and empty members allowed) of first-[last] / -suffix with
 // decimal numbers that fit int64, last >= first, at least one member. strict
 // reports whether the value follows that grammar exactly; when it does not but
-// only because of blanks around the numbers ("1 -2"), the members are still
+// only because of blanks or a plus sign around the numbers ("1 -2", "1-+2"), the members are still
 // returned (strict=false): a server may be liberal and honour such a header,
 // and the listed findings are then triggered the same way.
 func parseRangeRFC(h string) (specs []spec, strict, parsed bool) {
@@ -104,7 +104,16 @@ func parseRangeRFC(h string) (specs []spec, strict, parsed bool) {
 			if i < 0 {
 				return nil, false, false
 			}
-			m = strings.Trim(m[:i], " \t") + "-" + strings.Trim(m[i+1:], " \t")
+			// blanks around the numbers and an explicit plus sign are what
+			// strconv.ParseInt-based parsers let through
+			unplus := func(x string) string {
+				x = strings.Trim(x, " \t")
+				if len(x) > 1 && x[0] == '+' && x[1] >= '0' && x[1] <= '9' {
+					return x[1:]
+				}
+				return x
+			}
+			m = unplus(m[:i]) + "-" + unplus(m[i+1:])
 		}
 		if g := reSuffix.FindStringSubmatch(m); g != nil {
 			v, err := strconv.ParseInt(g[1], 10, 64)
@@ -432,6 +441,7 @@ type world struct {
 	mtime  int64
 
 	saw206, saw200, sawOther bool
+	once                     map[string]bool
 }
 
 func fileSize(r *vlib.Rand) int {
@@ -489,7 +499,7 @@ func oneCase(k *vlib.Case, mode int) {
 	if err != nil {
 		panic(err)
 	}
-	w := &world{k: k, url: u, file: fe.Data, mtime: fe.Spec.Mtime}
+	w := &world{k: k, url: u, file: fe.Data, mtime: fe.Spec.Mtime, once: map[string]bool{}}
 	w.h = gateway.NewHandler(gateway.Config{DeserializedResponses: true, MetricsRegistry: prometheus.NewRegistry()}, be)
 	if mode == modeWire {
 		w.srv = httptest.NewServer(w.h)
@@ -664,6 +674,14 @@ func (w *world) judge(method string, rq *request, p *response) (ok bool) {
 	}
 	fail := func(clause, expected, observed string) {
 		ok = false
+		// one record per class and case (repeats are counted): the per-case cap
+		// on recorded violations must stay available for other classes
+		cls := clause + "/" + feat
+		k.C.Count("seen:"+cls, 1)
+		if w.once[cls] {
+			return
+		}
+		w.once[cls] = true
 		k.Fail(clause+"/"+feat, clause, expected, fmt.Sprintf("%s %s -> %s; %s", method, rq, p.summary(), observed))
 	}
 
